@@ -1661,7 +1661,7 @@ class C14(Spec):
     pid = "C14"
     coq_files = ["Properties/C14.v"]
     theorems = ["C14_string_or_vec_roundtrip", "C14_audit_entry_roundtrip", "C14_exemption_roundtrip",
-                "C14_wildcard_entry_roundtrip", "C14_criteria_entry_roundtrip", "C14_tidy_is_canonical"]
+                "C14_wildcard_entry_roundtrip", "C14_criteria_entry_roundtrip", "C14_tidy_is_canonical", "C14_policy_key_roundtrip", "C14_policy_keys_never_collide"]
     level_text = ("Theorems about the model of cargo-vet's own (de)serialisation layer over an abstract TOML value, for ALL entries: "
                   "string_or_vec, the AuditEntry<->AuditEntryAll conversion (kind fields, importable default), exemptions (suggest "
                   "default), wildcard entries (renew), criteria entries (skip-if-empty lists, optional fields) decode what they encode; "
@@ -1702,6 +1702,7 @@ class C14(Spec):
         bycase = {c["id"]: c for c in cases}
         exprs = []
         expect = {}
+        policy_expect = {}
         nontrivial = 0
         dist = Counter()
         for cid, o in obs.items():
@@ -1789,9 +1790,38 @@ class C14(Spec):
                     else:
                         real.append([jk, ["str", str(tk(jv))]])
                 expect[key] = (real, cid, case)
+            # ---- model tie: the keys of the [policy] table as written vs the model's key encoding
+            if o.get("policy_typed") and flags["parse_back"] == "ok":
+                def CH(s_):
+                    return "[" + "; ".join(f"{ord(ch)}%N" for ch in s_) + "]"
+                ents = []
+                for (pn, sv, gr) in o["policy_typed"][:12]:
+                    ver = "None" if sv is None else f"(Some (Build_vetver {CH(sv)} {'None' if gr is None else '(Some ' + CH(gr) + ')'}))"
+                    ents.append(f"({CH(pn)}, {ver})")
+                pkey = f"{cid}#policy"
+                exprs.append((pkey, f"spkeys [{'; '.join(ents)}]"))
+                try:
+                    import tomllib
+                    written = tomllib.loads(o["written"]["config"]).get("policy", {})
+                    real_keys = sorted(written)[:]
+                except Exception:
+                    real_keys = None
+                policy_expect[pkey] = (real_keys, len(o["policy_typed"]), cid, case)
             if len(res["samples"]) < 2:
                 res["samples"].append({"id": cid, "audits_toml_written": o["written"]["audits"][:600], "observation": o["obs"]})
-        model = vetlib.run_model(exprs, os.path.join(work, "model"), ["Base", "Show", "Serde", "ShowSerde"]) if model_ok else {}
+        model = vetlib.run_model(exprs, os.path.join(work, "model"), ["Base", "Extracted", "Show", "Serde", "ShowSerde"]) if model_ok else {}
+        for pkey, (real_keys, ntyped, cid, case) in policy_expect.items():
+            m = model.get(pkey)
+            if m is None or real_keys is None:
+                continue
+            if m.startswith("MODEL-ERROR"):
+                res["mismatches"].append({"id": cid, "why": "model evaluation failed: " + m[:200], "case": gen.strip_struct(case)})
+                continue
+            e = vetlib.parse_sexp(m)
+            got = sorted("".join(chr(int(c)) for c in k[1:]) for k in e[1:])
+            if ntyped <= 12 and got != sorted(real_keys):
+                res["mismatches"].append({"id": cid, "why": "the model's [policy] keys differ from the keys cargo-vet wrote",
+                                          "impl": json.dumps(sorted(real_keys))[:400], "model": json.dumps(got)[:400], "case": gen.strip_struct(case)})
         compared = 0
         for key, (real, cid, case) in expect.items():
             if key not in model:
